@@ -96,7 +96,7 @@ def run(ctx):
     # ---- R6 a parsed quantity whose unit is discarded must not be relabelled
     for q in ('Container.__init__', 'Plate.__init__'):
         sc = scan_ctor(ctx, q)
-        uscan.report_sinks(ctx, lambda cat: 'C14.R6' if cat in ('to-storage', 'to-storage-dim', 'capacity-unit') else None, sc)
+        uscan.report_sinks(ctx, lambda cat: 'C14.R6' if cat in ('to-storage', 'to-storage-dim', 'capacity-unit', 'qstr', 'storage-label') else None, sc)
 
     return {'explanation': 'The parsing functions are interpreted over template strings (known characters, symbolic SI '
                            'prefixes, numeric tokens that know the unit the written number is expressed in): '
